@@ -12,6 +12,7 @@ import (
 	"net/http"
 	"os"
 	"sync"
+	"sync/atomic"
 	"time"
 
 	"github.com/notaryproject/notation-core-go/revocation"
@@ -259,6 +260,11 @@ func c15Scenarios(tier mc.Tier) []mc.Scenario {
 					Params: map[string]string{"format": media, "scheme": scheme, "key": k}})
 			}
 		}
+	}
+	for _, media := range []string{envenc.MediaJWS, envenc.MediaCOSE} {
+		media := media
+		out = append(out, mc.Scenario{Name: "C15-two-requests-through-one-authority-at-once-" + mediaShort(media), Bound: -1, Expect: 4 * 2, Body: func(c *mc.Ctx) { c15TwoAtOnce(c, media) },
+			Params: map[string]string{"format": media, "first caller's validator": "all OK, still working when the second request arrives", "second caller's validator": "OK / NonRevokable / Unknown / Revoked for the signing certificate"}})
 	}
 	if tier == mc.Quick {
 		// the other four key specs (each has its own hash for the imprint): the valid authorities only
@@ -558,4 +564,127 @@ func init() {
 		},
 		BudgetS: [2]int{150, 1500},
 	})
+}
+
+// c15TwoAtOnce: two sign requests whose tokens come from the same authority (same TSA chain), each with a revocation validator of its
+// own. The second request arrives while the first caller's validator is still working. Each request is decided by its own validator,
+// which is consulted exactly once for it. (The first caller waits for the second to finish; should the second turn out to depend on
+// the first - it must not -, the first gives up waiting after a few seconds so that the execution ends and can be judged.)
+func c15TwoAtOnce(c *mc.Ctx, media string) {
+	w := tsaGetWorld()
+	secondSays := c15Results[c.ChooseFree("second-callers-validator-says", len(c15Results))]
+	samePayload := c.ChooseFree("same-payload", 2) == 1
+	b := &c15Behaviours[0] // granted, valid chain of two
+	mkReq := func(who string, v revocation.Validator) *signature.SignRequest {
+		tr := &netsim.Transport{}
+		tr.Handler = func(r *netsim.Request, raw *http.Request) netsim.Answer {
+			var req tspclient.Request
+			if err := req.UnmarshalBinary(r.Body); err != nil {
+				return netsim.Answer{Status: 400}
+			}
+			var issued []byte
+			return b.reply(w, &req, &issued)
+		}
+		ls, err := signature.NewLocalSigner(pki.X509s(chainFor("p256-e")), pki.K("p256-e").Priv)
+		if err != nil {
+			panic(mc.HarnessError{Msg: err.Error()})
+		}
+		ts, err := tspclient.NewHTTPTimestamper(tr.Client(), "http://tsa.test/")
+		if err != nil {
+			panic(mc.HarnessError{Msg: err.Error()})
+		}
+		payload := `{"caller":"` + who + `"}`
+		if samePayload {
+			payload = `{"caller":"both"}`
+		}
+		return &signature.SignRequest{
+			Payload:                signature.Payload{ContentType: "application/vnd.cncf.notary.payload.v1+json", Content: []byte(payload)},
+			Signer:                 ls,
+			SigningTime:            pki.Now,
+			SigningScheme:          signature.SigningSchemeX509,
+			TSARootCAs:             w.pool,
+			Timestamper:            ts,
+			TSARevocationValidator: v,
+		}
+	}
+	mkRes := func(r result.Result) *result.CertRevocationResult {
+		return &result.CertRevocationResult{Result: r, ServerResults: []*result.ServerResult{{Result: r}}}
+	}
+	firstInside := make(chan struct{})
+	secondDone := make(chan struct{})
+	var firstCalls, secondCalls int32
+	gaveUp := false
+	first := validatorFunc(func(ctx context.Context, opts revocation.ValidateContextOptions) ([]*result.CertRevocationResult, error) {
+		if atomic.AddInt32(&firstCalls, 1) == 1 {
+			close(firstInside)
+			select {
+			case <-secondDone:
+			case <-time.After(4 * time.Second):
+				gaveUp = true
+			}
+		}
+		var out []*result.CertRevocationResult
+		for range opts.CertChain {
+			out = append(out, mkRes(result.ResultOK))
+		}
+		return out, nil
+	})
+	second := validatorFunc(func(ctx context.Context, opts revocation.ValidateContextOptions) ([]*result.CertRevocationResult, error) {
+		atomic.AddInt32(&secondCalls, 1)
+		var out []*result.CertRevocationResult
+		for i := range opts.CertChain {
+			r := result.ResultOK
+			if i == 0 {
+				r = secondSays
+			}
+			out = append(out, mkRes(r))
+		}
+		return out, nil
+	})
+	type res struct {
+		env []byte
+		err error
+		pan any
+	}
+	firstRes := make(chan res, 1)
+	go func() {
+		env, err, pan := doSign(media, mkReq("first", first))
+		firstRes <- res{env, err, pan}
+	}()
+	select {
+	case <-firstInside:
+	case r := <-firstRes:
+		// the first request ended without consulting its validator: C15's other scenarios judge that; nothing to do here
+		c.Outcome("two-at-once:first-request-never-reached-its-validator")
+		_ = r
+		close(secondDone)
+		return
+	}
+	env2, err2, pan2 := doSign(media, mkReq("second", second))
+	close(secondDone)
+	r1 := <-firstRes
+	c.Statef("second=%s samePayload=%v", secondSays, samePayload)
+	c.Tracef("second caller's validator says %s for the signing certificate: second Sign err=%v bytes=%d (validator consulted %d times); first Sign err=%v bytes=%d; first caller gave up waiting: %v", secondSays, err2, len(env2), atomic.LoadInt32(&secondCalls), r1.err, len(r1.env), gaveUp)
+	sig := func(what string) string {
+		return fmt.Sprintf("C15 %s two requests at once: %s", mediaShort(media), what)
+	}
+	if pan2 != nil || r1.pan != nil {
+		c.Fail(sig("panic-in-Sign"), "%v %v", pan2, r1.pan)
+		return
+	}
+	wantSecond := secondSays == result.ResultOK || secondSays == result.ResultNonRevokable
+	c.Outcome(fmt.Sprintf("two-at-once:second-signed=%v", err2 == nil))
+	switch {
+	case err2 == nil && !wantSecond:
+		c.Fail(sig("signed-without-valid-timestamp: the second request's own validator says "+secondSays.String()), "its validator was consulted %d times; the first caller's validator (all OK) was still working when the request arrived", atomic.LoadInt32(&secondCalls))
+	case err2 != nil && wantSecond && !gaveUp:
+		c.Fail(sig("valid request refused"), "%v", err2)
+	case atomic.LoadInt32(&secondCalls) != 1 && !gaveUp:
+		c.Fail(sig("the second request's validator was not consulted exactly once"), "%d calls", atomic.LoadInt32(&secondCalls))
+	case gaveUp:
+		c.Fail(sig("the second request waited for the first caller's revocation check"), "the first caller's validator had to give up waiting for the second request to finish")
+	}
+	if r1.err != nil && !gaveUp {
+		c.Fail(sig("first request refused although its validator says OK"), "%v", r1.err)
+	}
 }
